@@ -261,7 +261,7 @@ func lifeOps(w *world.World, ctx sdk.Context, o LifeOpts) []engine.Op {
 		if o.RemoveCap {
 			if p, ok := a.NodeKeeper.GetPledge(ctx, sp.S()); ok {
 				free := p.TotalStorage - p.UsedStorage
-				for _, sz := range uniq64([]int64{1_000_000, free, free + 1_000_000}) {
+				for _, sz := range uniq64([]int64{1_000_000, free, free + 999_999, free + 1_000_000}) {
 					if sz > 0 {
 						out = append(out, Tx("removev", fmt.Sprintf("removev(%s,%d)", sp.Name, sz), &nodetypes.MsgRemoveVstorage{Creator: sp.S(), Size_: uint64(sz)}))
 					}
@@ -470,6 +470,7 @@ func (o *LifeOracle) State(w *world.World, ctx sdk.Context, s *engine.State) []e
 	}
 	if o.Props["C07"] {
 		out = append(out, C07State(sn)...)
+		out = append(out, C07Withdrawable(w, ctx, sn)...)
 	}
 	if o.Props["C11"] {
 		out = append(out, C11State(sn, s.G.(*lifeGhost))...)
